@@ -49,7 +49,15 @@ structure NodeCfg where
   initIL : Option Rat
   initOrders : Rat
   initShipments : Rat
+  hFn : Option (List Rat) := none   -- local_holding_cost_function as polynomial coefficients (lowest degree first)
+  pFn : Option (List Rat) := none   -- stockout_cost_function, evaluated at the (signed) ending inventory level
 deriving Repr
+
+/-- Polynomial `c₀ + c₁x + c₂x² + …` (Horner). The harness uses polynomial cost functions so that the model can
+evaluate exactly what the Python callable computes. -/
+def polyEval : List Rat → Rat → Rat
+  | [], _ => 0
+  | c :: cs, x => c + x * polyEval cs x
 
 structure Net where
   nodes : List NodeCfg
@@ -368,8 +376,10 @@ def nodeCosts (net : Net) (st : State) (n : Nat) (s : NodeSt) : NodeSt :=
     match (net.edge e).src with
     | some p => (net.cfg p).h * ((st.edge e).rm + (st.edge e).idi)
     | none => 0)
-  let hc := c.h * held + rmCost
-  let sc := c.p * neg s.il
+  -- a cost FUNCTION, when given, replaces rate × quantity: holding on the items held (positive inventory +
+  -- items held for disrupted customers), stockout on the signed ending inventory level (sim.py:704-731)
+  let hc := (match c.hFn with | some cs => polyEval cs held | none => c.h * held) + rmCost
+  let sc := match c.pFn with | some cs => polyEval cs s.il | none => c.p * neg s.il
   let ht := match c.hTransit with | none => c.h | some x => x
   let ithc := ht * lsum (c.outE.map fun e =>
     match (net.edge e).dst with | some _ => lsum (st.edge e).ispl | none => 0)
